@@ -1145,7 +1145,18 @@ func (f *Frugal) validateConstant(constant *Constant) error {
 		}
 		return fmt.Errorf("Referenced constant %s not found", name)
 	} else if len(pieces) == 2 {
-		// From an include
+		// Either a value of an enum of this file...
+		for _, enum := range f.Enums {
+			if pieces[0] == enum.Name {
+				for _, value := range enum.Values {
+					if pieces[1] == value.Name {
+						return nil
+					}
+				}
+			}
+		}
+
+		// ...or from an include
 		frugal := f
 		includeName := pieces[0]
 		paramName := pieces[1]
@@ -1163,6 +1174,23 @@ func (f *Frugal) validateConstant(constant *Constant) error {
 		}
 		return fmt.Errorf("Referenced constant %s from include %s not found",
 			paramName, includeName)
+	} else if len(pieces) == 3 {
+		// A value of an enum from an include
+		include, ok := f.ParsedIncludes[pieces[0]]
+		if !ok {
+			return fmt.Errorf("Include %s not found", pieces[0])
+		}
+		for _, enum := range include.Enums {
+			if pieces[1] == enum.Name {
+				for _, value := range enum.Values {
+					if pieces[2] == value.Name {
+						return nil
+					}
+				}
+			}
+		}
+		return fmt.Errorf("Referenced enum value %s.%s from include %s not found",
+			pieces[1], pieces[2], pieces[0])
 	}
 
 	return fmt.Errorf("Invalid constant name %s", name)
